@@ -187,7 +187,13 @@ int EGLPNUM_TYPENAME_ILLmps_next_field (
 	{
 		if (sscanf (state->p, "%s", state->field) == 1)
 		{
-			state->p += strlen (state->field) + 1;
+			state->p += strlen (state->field);
+			/* step over the delimiter, but never over the end of the line: what
+			 * lies behind it are the remains of earlier, longer lines */
+			if (*state->p != '\0')
+			{
+				state->p++;
+			}
 			state->field_num++;
 			return 0;
 		}
